@@ -1,5 +1,6 @@
 SPECIFICATION MCSpec
 CONSTANTS Malformed = "ascoded"
+ ApiErr = "ascoded"
  Variant = "none"
  AltForks = {"phase0", "altair", "bellatrix", "capella", "deneb", "electra", "fulu"}
 INVARIANTS Safety Progress
